@@ -679,31 +679,34 @@ fn render_svg(args: &Args, tree: &usvg::Tree) -> Result<tiny_skia::Pixmap, Strin
             .abs_layer_bounding_box()
             .ok_or_else(|| "node has zero size".to_string())?;
 
+        // The size options apply to the exported area: the object itself,
+        // or the whole page with `--export-area-page`.
+        let area = if args.export_area_page {
+            tree.size().to_int_size()
+        } else {
+            bbox.size().to_int_size()
+        };
+
         let size = args
             .fit_to
-            .fit_to_size(bbox.size().to_int_size())
+            .fit_to_size(area)
             .ok_or_else(|| "target size is zero".to_string())?;
 
-        // Unwrap is safe, because `size` is already valid.
-        let mut pixmap = tiny_skia::Pixmap::new(size.width(), size.height()).unwrap();
-
-        if !args.export_area_page {
-            if let Some(background) = args.background {
-                pixmap.fill(svg_to_skia_color(background));
-            }
-        }
-
-        let ts = args.fit_to.fit_to_transform(tree.size().to_int_size());
-
-        resvg::render_node(node, ts, &mut pixmap.as_mut());
+        let ts = args.fit_to.fit_to_transform(area);
 
         if args.export_area_page {
             // TODO: add offset support to render_node() so we would not need an additional pixmap
 
-            let size = args
-                .fit_to
-                .fit_to_size(tree.size().to_int_size())
-                .ok_or_else(|| "target size is zero".to_string())?;
+            // The object's box in output pixels.
+            let node_box = bbox
+                .transform(ts)
+                .ok_or_else(|| "node has zero size".to_string())?;
+            let node_size = node_box.size().to_int_size();
+
+            let mut pixmap = tiny_skia::Pixmap::new(node_size.width(), node_size.height())
+                .ok_or_else(|| "node is too large".to_string())?;
+
+            resvg::render_node(node, ts, &mut pixmap.as_mut());
 
             // Unwrap is safe, because `size` is already valid.
             let mut page_pixmap = tiny_skia::Pixmap::new(size.width(), size.height()).unwrap();
@@ -713,8 +716,8 @@ fn render_svg(args: &Args, tree: &usvg::Tree) -> Result<tiny_skia::Pixmap, Strin
             }
 
             page_pixmap.draw_pixmap(
-                bbox.x() as i32,
-                bbox.y() as i32,
+                node_box.x() as i32,
+                node_box.y() as i32,
                 pixmap.as_ref(),
                 &tiny_skia::PixmapPaint::default(),
                 tiny_skia::Transform::default(),
@@ -722,6 +725,14 @@ fn render_svg(args: &Args, tree: &usvg::Tree) -> Result<tiny_skia::Pixmap, Strin
             );
             page_pixmap
         } else {
+            // Unwrap is safe, because `size` is already valid.
+            let mut pixmap = tiny_skia::Pixmap::new(size.width(), size.height()).unwrap();
+
+            if let Some(background) = args.background {
+                pixmap.fill(svg_to_skia_color(background));
+            }
+
+            resvg::render_node(node, ts, &mut pixmap.as_mut());
             pixmap
         }
     } else {
